@@ -125,6 +125,7 @@ let () =
             emit "K11" id (cross eP eQ k11);
             let k12 fw h f =
               timed (fun () -> match kernel12_g gen_shadowsQ shc_instr ex fw p.km q.km (zi h) (zi f) with None -> 9 | Some (s, _) -> int_of_z s) in
+            Printf.printf "CM %s %d %d\n" id (if closed_meshb p.km (nat_of_int p.nf) then 1 else 0) (if closed_meshb q.km (nat_of_int q.nf) then 1 else 0);
             emit "K12F" id (cross eP (range nfQ) (k12 true));
             emit "K12B" id (cross eQ (range nfP) (k12 false))
           | "W03" ->
